@@ -314,7 +314,6 @@ def compile_logical_or_and_and_operator(compiler, expr, operator, args):
         if var is None:
             var = compiler.get_anon_var()
         name = asty.Name(node, id=var, ctx=ast.Store())
-        ret.temp_variables.append(name)
         can_append = False
         return (assignment := asty.Assign(node, targets=[name], value=value))
 
@@ -323,7 +322,6 @@ def compile_logical_or_and_and_operator(compiler, expr, operator, args):
         if var is None:
             stmts.append(put(node, ret.force_expr))
         name = asty.Name(node, id=var, ctx=ast.Load())
-        ret.temp_variables.append(name)
         return name
 
     for value in map(compiler.compile, args):
@@ -361,13 +359,16 @@ def compile_logical_or_and_and_operator(compiler, expr, operator, args):
                 assignment.value = enbool(assignment.value)
             else:
                 ret.expr = enbool(ret.force_expr)
-                # The expression context is now a `BoolOp`, not merely
-                # the first operand's temporary, so it mustn't be
-                # renamed away by an enclosing assignment.
-                ret.temp_variables = []
 
     if var:
         ret.expr = get(expr)
+    if len(args) > 1:
+        # Don't offer any temporary to `Result.rename`. The expression
+        # context is no longer merely the first operand's temporary,
+        # and `var` is assigned between operands, so renaming it to an
+        # assignment target would change that target's value before
+        # later operands (which may refer to it) are evaluated.
+        ret.temp_variables = []
     return ret
 
 
